@@ -103,6 +103,16 @@ def cases(rng, tier):
             # … and when the first argument does raise, the faulty handler's own failure is what propagates (model)
             yield Case(program=f"(ㄹ ㄷㅂㅎㄴ ㄷㅈㅎㄴ) {hbad} ㅅㄷㅎㄷ", tag='handler-faulty-used', stdin="x\n")
             yield Case(program=f"((ㄹ ㄷㅂㅎㄴ ㄷㅈㅎㄴ) {hbad} ㅅㄷㅎㄷ) (ㄱㅇㄱ ㅎ) ㅅㄷㅎㄷ", tag='handler-faulty-used-nested', stdin="x\n")
+        # the exception that is thrown is the one that arrives: contents that are still lazy (and would fail if somebody
+        # evaluated them) travel untouched through ㄷㅈ, re-throw and ㅅㄷ — the handler sees its own exception, not theirs
+        for fault in ["(ㄱ ㄱ ㄴㄴㅎㄷ)", "(ㄹ ㄷㅂㅎㄴ ㄷㅈㅎㄴ)", "(ㅂㄱㅎㄱ ㅎㄱ)"]:
+            n = rng.randint(2, 9)
+            for holder in [f"({fault} ㅁㄹㅎㄴ)", f"(ㄴ {fault} ㅅㅈㅎㄷ)", f"(({fault} ㅁㄹㅎㄴ) ㅁㄹㅎㄴ)", f"(({fault} ㅁㄹㅎㄴ) ㄷㅂㅎㄴ)"]:
+                exc = f"({enc(n)} {holder} ㄷㅂㅎㄷ)"
+                yield Case(program=f"({exc} ㄷㅈㅎㄴ) (ㄱ ㄱㅇㄱ ㅎㄴ ㅎ) ㅅㄷㅎㄷ", variants=(enc(n),), tag='lazy-payload-caught', stdin="x\n")
+                yield Case(program=f"(({exc} ㄷㅈㅎㄴ) (ㄱㅇㄱ ㄷㅈㅎㄴ ㅎ) ㅅㄷㅎㄷ) (ㄱ ㄱㅇㄱ ㅎㄴ ㅎ) ㅅㄷㅎㄷ", variants=(enc(n),), tag='lazy-payload-rethrown', stdin="x\n")
+                yield Case(program=f"(({exc} ㄷㅈㅎㄴ ㄱㅅㅎㄴ ㅎ) ㅎㄱ) (ㄱ ㄱㅇㄱ ㅎㄴ ㅎ) ㅅㄷㅎㄷ", variants=(enc(n),), tag='lazy-payload-in-call', stdin="x\n")
+                yield Case(program=f"{exc} ㄷㅈㅎㄴ", tag='lazy-payload-uncaught', stdin="x\n")
         # built-in failures: contents begin [5, class]
         for prog in ["ㄴ ㄱ ㄴㄴㅎㄷ", "ㄴ ㅁㅈㅎㄱ ㄷㅎㄷ", "ㄹ ㅇㄱ", "ㅈㅈㅈㅈㅈ ㅎㄱ", "ㄱ ㄴ ㅁㄹㅎㄷ ㄷ ㅎㄴ".replace("ㄱ ㄴ ㅁㄹㅎㄷ ㄷ ㅎㄴ", "ㄷ (ㄱ ㄴ ㅁㄹㅎㄷ) ㅎㄴ"),
                      "ㄴ (ㅅㅈㅎㄱ) ㅎㄴ", "ㅁㅈㅎㄱ ㅈㅅㅎㄴ", "ㄴ ㄷ ㄱ ㅅㅎㄹ"]:
